@@ -72,6 +72,8 @@ where
     define_component: Option<SyntaxContext>,
     interfaces: FnvHashMap<(Atom, SyntaxContext), TsInterfaceDecl>,
     type_aliases: FnvHashMap<(Atom, SyntaxContext), TsType>,
+    /// named types and indexed accesses whose resolution is in progress (cycle detection)
+    resolving: std::cell::RefCell<Vec<resolve_type::Resolving>>,
 
     unresolved_mark: Mark,
     comments: Option<C>,
@@ -99,6 +101,7 @@ where
             define_component: None,
             interfaces: Default::default(),
             type_aliases: Default::default(),
+            resolving: Default::default(),
 
             unresolved_mark,
             comments,
